@@ -1,5 +1,6 @@
 import PartituraModel.Wire
 import PartituraModel.Model.Unfold
+import PartituraModel.Model.UnfoldFam
 
 open Wire Model.Unfold
 
@@ -10,6 +11,8 @@ Requests (L = layout, PART = abstract part):
   seg   L                         -> [(start,stp,[to],[await],type)]            | err
   paths L nr ar il                -> [[ids]]                                      | err
   var   L nr ar il idx upd PART   -> ([points],[objects sorted],[(t,q)],duration) | err
+  fam   L                         -> chain <flags> | volta <pre> <k> <post> <asg> | dc-fine | dc-coda | ds-coda | none
+                                     (the layout family of Props/C09Ext the layout is an instance of, all hypotheses checked)
 Destinations are printed as segment numbers, `END` as `E`.
 -/
 
@@ -89,6 +92,10 @@ def handle (ts : List String) : String :=
     | some L => match mkSegments L with
       | none => "err"
       | some g => fmtList fmtSeg g
+  | "fam" :: rest =>
+    match run pLayout rest with
+    | none => "bad-request"
+    | some L => C09.famOf L
   | "paths" :: rest =>
     match run (do let L ← pLayout; let nr ← bool; let ar ← bool; let il ← bool; pure (L, nr, ar, il)) rest with
     | none => "bad-request"
